@@ -75,7 +75,7 @@ SCancel ==
 
 SProgress ==
   /\ Is("Progress") /\ now = Ev.t
-  /\ CanRecv(Ev.c) /\ NextFor(Ev.c).n = Ev.n /\ ProgressHit(Ev.c, NextFor(Ev.c))
+  /\ CanRecv(Ev.c) /\ (Ev.sure => NextFor(Ev.c).n = Ev.n) /\ ProgressHit(Ev.c, NextFor(Ev.c))
   /\ Recv(Ev.c) /\ Consume
   /\ Flag(Ev.ok, "ProgressValues")
 
